@@ -25,7 +25,7 @@ def _raising_collate(batch):
     raise RuntimeError('user collate_fn must never be called')
 
 
-class C10(core.Check):
+class C10(frame.Findings, core.Check):
     pid = 'C10'
     title = 'A data-loader epoch is an exact partition of the rows'
     driver = 'drv_c07'
@@ -113,6 +113,11 @@ class C10(core.Check):
 
     def real(self, case):
         self._findings = []
+        out = self._real(case)
+        self.remember(case, self._findings)
+        return out
+
+    def _real(self, case):
         F = self._findings
         src, mat, ref = self.source(case)
         n = len(mat)
@@ -133,6 +138,13 @@ class C10(core.Check):
         try:
             loader = DataLoader(src, **kw)
         except Exception:
+            if case['collate']:
+                kw2 = {k: v for k, v in kw.items() if k != 'collate_fn'}
+                try:
+                    DataLoader(src, **kw2)
+                    F.append(('loader/collate', 'a user-supplied collate_fn changes what the loader does', None, None))
+                except Exception:
+                    pass
             return 'raises'
         rec = None
         if loader.batch_sampler is not None and case['batch_sampler'] is None:
@@ -230,8 +242,9 @@ class C10(core.Check):
         return replies[0]
 
     def oracle(self, case, real_outcome):
-        if self._findings:
-            key, what, exp, got = self._findings[0]
+        findings = self.recall(case)
+        if findings:
+            key, what, exp, got = findings[0]
             return core.Violation(key, what, case, exp, got)
         return None
 
